@@ -554,7 +554,7 @@ def run_toy(ctx, pid, plan, sim_traces, sim_depth):
         rp = Replayer(graph)
         mod = gen_mc(gname, graph, rp.order(), ctx.tmp, tag=f"_{pid}_{tag}", **kw)
         _set_invs(os.path.join(ctx.tmp, mod + ".cfg"), pid)
-        res = tlc.run(mod, mod + ".cfg", cwd=ctx.tmp, coverage=cov)
+        res = tlc.run(mod, mod + ".cfg", cwd=ctx.tmp, coverage=bool(cov))
         tlc.require_ok(res, mod)
         ctx.add_tlc(f"{gname}/{tag} MaxOps={kw.get('max_ops')}", res)
         ctx.log(f"TLC {mod}: generated={res.generated} distinct={res.distinct} violated={res.violated} {res.wall:.1f}s")
@@ -562,7 +562,8 @@ def run_toy(ctx, pid, plan, sim_traces, sim_depth):
             ctx.violation({"check": "toy_exhaustive", "graph": gname, "invariant": res.violated[0]},
                           f"specification {mod} violates {res.violated}", replay=res.trace_text[:6000])
         if cov:
-            missing = [a for a in ACTIONS if res.coverage.get(a, (0, 0))[1] == 0]
+            need = ACTIONS if cov is True else cov
+            missing = [a for a in need if res.coverage.get(a, (0, 0))[1] == 0]
             if missing:
                 raise tlc.MachineryError(f"vacuity: actions never taken in {mod}: {missing}")
     # spec -> code replay
